@@ -1114,9 +1114,9 @@ def run(ctx):
             ctx.violation(tree_key(c['spec']) + ' tmp_ran={} tmp_dom={}'.format(
                 c['spec']['tr'], c['spec']['td']), '; '.join(problems)[:700], c)
         compare_tree(ctx, c, impl, ans)
-    exact_stream(ctx, 500 if quick else 6000)
-    mixed_stream(ctx, 120 if quick else 1500)
-    zoo_stream(ctx, 2 if quick else 12)
+    exact_stream(ctx, 1500 if quick else 20000)
+    mixed_stream(ctx, 300 if quick else 4000)
+    zoo_stream(ctx, 3 if quick else 25)
     if not quick:
         unhit = [b for b in EXPECTED_BRANCHES if b not in ctx.branches]
         ctx.extra['unhit_model_branches'] = unhit
